@@ -23,6 +23,14 @@ CHECKS = {
          "same generator and drivers as C02; a TLA+ trace specification checks no panic / no hang / allocation bound / value views inside the declared body, ordered and disjoint / IsMessage, for every entry point and capacity",
          "Totality and view-safety requirement monitor evaluated by TLC on every enumerated length structure and on random, mutated and maximum-size inputs, for all 7 entry points and two buffer capacities; panics are observed through recover, non-termination through a watchdog, allocation through runtime.MemStats.",
          "Trusted: Go bounds checking (memory safety is observed as panics), MemStats accuracy, TLC, the harness. The allocation bound (64n+4096) is an interpretation of 'small multiple of the input'."),
+ "C04": (True, "DESIGN.md §4 C04",
+         "TLC enumerates MAC shapes and checks the StunAuth theorems with HMAC-SHA1/MD5 written in TLA+; the library signs/checks each shape and a TLA+ trace specification recomputes every verdict and every appended MAC from the bytes",
+         "Check = nil iff the RFC 5389 s15.4 reference (first MESSAGE-INTEGRITY, 20 bytes, HMAC-SHA1 over the prefix with rewritten length) says so, for every TLC-enumerated shape x MAC variant x key class, under the signing key, a random key and a one-bit-different key; exhaustive single-bit sweeps of signed messages; AddTo bytes equal the reference; long-term key = MD5(u:r:p); refusal after FINGERPRINT leaves the message unchanged.",
+         "Trusted: the TLA+ transcriptions of SHA-1, MD5, HMAC (validated against RFC/FIPS vectors), StunAuth as the reading of s15.4, TLC, the recording harness."),
+ "C05": (True, "DESIGN.md §4 C05",
+         "CRC-32 and the s15.5 rule written in TLA+; TLC trace validation of the setter's bytes, of Check on every single-bit flip (exhaustive per message) and random bursts of fingerprinted messages, and on arbitrary messages with FINGERPRINT attributes incl. near-miss CRC spans",
+         "Check = nil iff the reference (first FINGERPRINT is 4 bytes and equals CRC-32 of everything before the last 8 raw bytes, XOR 0x5354554e) says so on every recorded variant; the detection clause is checked directly on every flip/burst in which FINGERPRINT stays the only such attribute; setter output equals the reference bytes.",
+         "Trusted: the TLA+ CRC-32 (bit-serial definition, table form checked equal), StunAuth as the reading of s15.5, TLC, the harness."),
 }
 
 ALL = ["C%02d" % i for i in range(1, 21)]
